@@ -294,7 +294,7 @@ def compare_bench(b0, others, cfgs, W):
             if ox != oy:
                 sure = x.get('status') in ('must_accept', 'must_refuse', 'must_reject', None) and \
                     y.get('status') in ('must_accept', 'must_refuse', 'must_reject', None) and \
-                    x.get('margin_rel', 1.0) >= 5e-4 and y.get('margin_rel', 1.0) >= 5e-4
+                    x.get('margin_rel', 1.0) >= 5e-4 and y.get('margin_rel', 1.0) >= 5e-4 and cmpr.request_ok(b0.events_seen[k])
                 if sure:
                     out.append((k, 'decision', f"event {k}: shipped config -> {ox}, {tag} -> {oy}"))
                 break       # histories diverge from here on
@@ -490,8 +490,12 @@ def finish_bench(record, b0, known):
         runs.append((c, b))
         # oracle violations that appear only under the non-shipped configuration
         base_keys = set(v.fkey() for v in b0.violations)
+        floor = Comparator(cfgs, len(record['events']))
         for v in b.violations:
             if v.known is None and v.fkey() not in base_keys:
+                if 0 <= v.event < len(record['events']) and not floor.request_ok(record['events'][v.event]):
+                    b0.stats['config_specific_violation_below_request_floor_unjudged'] += 1
+                    continue        # a quantity below 1e4 rounding steps of the coarsest replica (a trace, a tiny negative amount)
                 b0.violations.append(Violation('C18', 'config_specific_violation', (v.prop, v.clause, c['moles_storage_unit'], c['volume_storage_unit']),
                                                v.event, f"only under {cfg_tag(c)}: {v.prop}.{v.clause}: {v.detail}"))
                 break
